@@ -5,11 +5,11 @@ CONSTANTS
   CopyLists = TRUE
   LocalClusters = TRUE
   RefreshParams = TRUE
-  OwnScalers = FALSE
+  OwnScalers = TRUE
   CopyOnHandOut = TRUE
   KeyedMemo = TRUE
   RejectKeeps = TRUE
-  OwnMaps = TRUE
+  OwnMaps = FALSE
 INVARIANT FitRepeatable
 INVARIANT PredStable
 INVARIANT StoredDqIsModelDq
